@@ -29,10 +29,9 @@ Lemma on_frame_begin_nobuf (s : rstate) f : failed (cn D s) = true ->
   le_buf (ms D (fst (on_frame_begin D cd cf s f))) (ms D s).
 Proof.
   intros Hf. unfold on_frame_begin. destruct (fb_is_ctl _); [apply le_buf_refl|].
-  unfold on_message_frame_begin. rewrite Hf. cbn [fst ms r_ms r_cn].
-  destruct (inside D (ms D s)).
-  - split; cbn; [apply lenN_nil_le|lia].
-  - destruct (pmc cf && _), (fb_is_text _ && _); split; cbn; apply lenN_nil_le.
+  rewrite !Hf. cbn [fst ms r_ms r_cn].
+  destruct (inside D (ms D s)); [apply le_buf_refl|].
+  destruct (pmc cf && _), (fb_is_text _ && _); split; cbn; lia.
 Qed.
 
 Lemma on_frame_data_nobuf (s : rstate) f p : failed (cn D s) = true ->
@@ -58,12 +57,11 @@ Proof.
     + destruct (pc_is_close _); [destruct (on_close_frame cf _ _ _); apply le_buf_refl|].
       destruct (pc_is_ping _); [cbn [cn r_cdata]; destruct (st (cn D s)); [destruct (_ && _)|..]; apply le_buf_refl|].
       destruct (pc_is_pong _); apply le_buf_refl.
-    + rewrite Hf. destruct (f_fin f).
-      * match goal with |- context [if ?b then invalid_payload cf ?c else _] => destruct b end.
-        -- destruct (invalid_payload cf (cn D s)) as [[c1 e1] stop]. destruct stop; cbn [fst ms r_ms r_cn r_cur];
-           destruct (zon D _); split; cbn; try apply lenN_nil_le; lia.
-        -- cbn [fst ms r_ms r_cn r_cur]. destruct (zon D _); split; cbn; apply lenN_nil_le.
-      * cbn. split; cbn; [apply lenN_nil_le|lia].
+    + rewrite Hf. destruct (f_fin f); [|apply le_buf_refl].
+      match goal with |- context [if ?b then invalid_payload cf ?c else _] => destruct b end.
+      * destruct (invalid_payload cf (cn D s)) as [[c1 e1] stop]. destruct stop; cbn [fst ms r_ms r_cn r_cur];
+          [|destruct (failed c1)]; destruct (zon D _); split; cbn; try apply lenN_nil_le; lia.
+      * cbn [fst ms r_ms r_cn r_cur]. rewrite Hf. destruct (zon D _); split; cbn; lia.
   - destruct (on_frame_end D cd cf s f) as [[s3 e3] c3]. destruct T as [_ T]. rewrite Hf in T. cbn [fst snd].
     now apply tr_ok_true_no_msg.
 Qed.
